@@ -101,6 +101,23 @@ pub fn valid_bursts(rng: &mut Rng, plan: &mut Plan, wl: &Workload) -> u64 {
     t
 }
 
+/// Byte-identical retransmissions: a request sent alone, then again (same socket, same bytes)
+/// after `gap_us`, with nothing else of that protocol in between. Returns the end time.
+pub fn retransmissions(rng: &mut Rng, plan: &mut Plan, rounds: u32, sockets: u32, start_us: u64) -> u64 {
+    let mut t = start_us;
+    let mut ctr = plan.seed.wrapping_mul(104_729) ^ 0x7e7;
+    for _ in 0..rounds {
+        let spec = valid_spec(rng, &mut ctr);
+        let sock = rng.below(sockets as u64) as u32;
+        let copies = 2 + rng.below(2);
+        for _ in 0..copies {
+            plan.step(t, Action::Send { sock, req: spec.clone() });
+            t += *rng.pick(&[300u64, 2_000, 50_000, 1_200_000, 6_000_000]);
+        }
+    }
+    t
+}
+
 /// Set the horizon so that everything sent can be processed, plus settle time.
 pub fn settle(plan: &mut Plan, settle_ms: u64) {
     let last = plan.last_step_us();
@@ -300,7 +317,14 @@ pub fn storm_spec(rng: &mut Rng, ctr: &mut u64) -> ReqSpec {
         7 => {
             *ctr = ctr.wrapping_add(1);
             let b = ReqSpec::Valid { proto: P::Ietf, size: size as u16, nonce_seed: *ctr, srv: SrvMode::Absent, vers: vec![r::VER_DRAFT13] };
-            let m = if rng.chance(1, 2) { Mutation::FrameLenDelta(rng.below(17) as i32 - 8) } else { Mutation::FrameLen(*rng.pick(&[0u32, 1, 4, 1012, 1488, size, size - 12, size - 8, 0xffff_ffff, 0x8000_0000])) };
+            let actual = size - 12;
+            let m = match rng.below(4) {
+                0 => Mutation::FrameLenDelta(rng.below(17) as i32 - 8),
+                1 => Mutation::FrameLen(*rng.pick(&[0u32, 1, 4, 1012, 1488, size, size - 12, size - 8, 0xffff_ffff, 0x8000_0000])),
+                // every single-bit corruption of the length word, and carries into the upper half
+                2 => Mutation::FrameLen(actual ^ (1 << rng.below(32))),
+                _ => Mutation::FrameLen(actual.wrapping_add(*rng.pick(&[0x1_0000u32, 0x2_0000, 0x100_0000, 0xffff_0000, 0x8000_0000, 0x100, 0xff00]))),
+            };
             ReqSpec::Mutant { base: Box::new(b), muts: vec![m] }
         }
         8 => {
@@ -393,8 +417,8 @@ pub fn check_exactly_once(co: &mut CheckOut, prop: &str, v: &View, out: &RunOut,
         // nothing may be left undelivered or unread at a live worker socket
         let w = &out.world;
         for s in &w.socks {
-            if w.procs[s.proc].sut && !s.closed && s.queue.iter().any(|d| !d.phantom) {
-                co.violate(prop, "missing_response", format!("{}|stranded_in_queue", prop), format!("{} datagram(s) still unread in worker socket {} at the end of the run (no wake-up)", s.queue.len(), s.id));
+            if w.procs[s.proc].sut && s.unread_at_end.unwrap_or(0) > 0 {
+                co.violate(prop, "missing_response", format!("{}|stranded_in_queue", prop), format!("{} datagram(s) still unread in worker socket {} at the end of the run (no wake-up)", s.unread_at_end.unwrap_or(0), s.id));
             }
         }
     }
